@@ -49,12 +49,23 @@ def handleC16 (op : String) (input impl : Json) : Except String Json := do
     let outcome := (fldD v "outcome" Json.null).getStr?.toOption.getD ""
     let refOutcome := (fldD v "refOutcome" Json.null).getStr?.toOption.getD ""
     let fault := (fldD input "fault" Json.null).getStr?.toOption.getD ""
+    let got := fun (k : String) => (fldD v k (Json.bool false)).getBool?.toOption.getD false
+    let colsOk := fun (kc kp : String) =>
+      (fldD v kc Json.null).compress == (fldD input "columns" Json.null).compress &&
+      (fldD v kp Json.null).compress == (fldD input "pk" Json.null).compress
     let viol :=
       (if outcome == "hang" || refOutcome == "hang" then ["always-terminates"] else []) ++
       (if refOutcome != "done" && refOutcome != "hang" then ["unexpected-error"] else []) ++
       (if fault == "none" && (outcome != refOutcome ||
           (fldD v "conflicts" Json.null).compress != (fldD v "refConflicts" Json.null).compress)
-        then ["same-outcome-as-single-threaded-run"] else [])
+        then ["same-outcome-as-single-threaded-run"] else []) ++
+      -- what the consumer is told with the first message (the column comparison) does not depend on
+      -- when it reaches the merge channel: the merger then answers Columns() / PK() with the merged
+      -- table's columns and key (every generated table has the base's), fault or no fault
+      (if (got "gotColDiff" && !(colsOk "columns" "pk")) || (got "refGotColDiff" && !(colsOk "refColumns" "refPK"))
+        then ["columns-and-key-known-once-first-message-is-received"] else []) ++
+      (if (fault == "none" && outcome == "done" && !(got "gotColDiff")) || (refOutcome == "done" && !(got "refGotColDiff"))
+        then ["first-message-carries-the-column-comparison"] else [])
     return reply mj (outcome != "hang") viol
   | "ingest-cli" =>
     -- the commit command's ingest helper on a failing store: terminates; an error exactly when a
